@@ -89,6 +89,18 @@ func ruleForwardedVariables(r *Run) {
 			"the variable is copied under the ok side of a comma-ok lookup in the request's variables",
 			"every name of the step's variable list is forwarded, present or not (absent ones as null): the sub-request's variables map then holds more than the stitched id, the `len(variables) == 1` gate of de-duplication never passes and the same entity is fetched once per list occurrence; absent variables also override downstream defaults with null")
 	}
+	// the library form of the same loop: lo.PickByKeys(request.Variables, step.VariablesList)
+	// copies exactly the entries of the list that the client supplied, values untouched
+	for _, ins := range allInstrs(fn) {
+		c, ok := ins.(*ssa.Call)
+		if !ok || !strings.HasSuffix(strings.SplitN(calleeName(&c.Call), "[", 2)[0], "lo.PickByKeys") || len(c.Call.Args) != 2 {
+			continue
+		}
+		if dependsOnField(c.Call.Args[0], "Variables") && dependsOnField(c.Call.Args[1], "VariablesList") {
+			n++
+			r.OK(rule, fnName(fn), "client variables picked by the step's list", r.P.pos(c.Pos()), "lo.PickByKeys(client variables, step variable list): a new map holding exactly the listed variables the client supplied, each with the very value it sent (covers R13k.vars, R13k.same and R13k.all)")
+		}
+	}
 	r.AtLeast(rule, "forwarded client variables", n, 1)
 }
 
